@@ -62,6 +62,11 @@ def expression_shapes(tier: str, seed: int) -> list:
 		paren.append(('paren', f'a {o1} (b {o2} d)'))
 	triples = [('triple', f'a {o1} b {o2} d {o3} a') for o1, o2, o3 in itertools.product(ALLBIN, repeat=3)]
 	mixed = [('mixed', f'{u}(a {o1} b) {o2} d') for u in ['not ', '-', '~'] for o1, o2 in itertools.product(ALLBIN, repeat=2)]
+	builtins = []
+	for o1, o2 in itertools.product(ARITH[:3] + CMP[:3], repeat=2):
+		builtins += [('builtin', f'abs(a {o1} b) {o2} d'), ('builtin', f'min(a, b) {o1} max(b {o2 if o2 in ARITH else "+"} d, a)'), ('builtin', f'int(c) {o1} int(a {o2} b)'), ('builtin', f'bool(a {o1} b) {o2} c')]
+	builtins += [('builtin', e) for e in ['(a < b) is True', '(a < b) is not c', 'c is False or a == b', 'not (c is True)', 'int(a < b) + int(b < d) * 2', 'abs(-a) - abs(a)', 'min(a, max(b, d))', 'bool(a) and bool(b)', 'int(not c)']]
+	out += builtins
 	nested = []
 	for o1, o2, o3 in itertools.product(ARITH[:3] + BITS + CMP[:2], repeat=3):
 		if (o3 in BITS and o2 in CMP) or (o1 in BITS and o3 in CMP):
@@ -91,6 +96,7 @@ STATEMENT_TEMPLATES = [
 	'def {n}({h}) -> int:\n\tx = 0\n\tfor i in range(a, b):\n\t\tif i {1} d:\n\t\t\tcontinue\n\t\tx += i\n\treturn x\n',
 	'def {n}({h}) -> int:\n\tx = 0\n\tfor i in range(a, b, 2):\n\t\tx = x {0} i\n\t\tif x {2} d:\n\t\t\tbreak\n\treturn x\n',
 	'def {n}({h}) -> int:\n\tx = 0\n\tfor i in range(3):\n\t\tfor j in range(i):\n\t\t\tx += a {0} j\n\treturn x\n',
+	'def {n}({h}) -> int:\n\tx = a\n\twhile True:\n\t\tx += 1\n\t\tif x {1} b or x > a + 4:\n\t\t\tbreak\n\tz = bool(x {0} d)\n\tif z:\n\t\tpass\n\treturn x + int(z)\n',
 	# descending and variable-step ranges
 	'def {n}({h}) -> int:\n\tx = 0\n\tfor i in range(a, b, -1):\n\t\tx = x {0} i\n\t\tif i {1} d:\n\t\t\tbreak\n\treturn x\n',
 	'def {n}({h}) -> int:\n\tx = 0\n\tfor i in range(a, b, -2):\n\t\tx += i\n\tfor j in range(3, 0, -1):\n\t\tx = x {0} j\n\treturn x\n',
